@@ -306,6 +306,10 @@ def apply(c, tr):
         return c, 1.0
     if k == "reroot":
         return reroot(c, tr["edge"], tr["frac"]), 1.0
+    if k == "fasta":
+        c = copy.deepcopy(c)
+        c["fasta"] = {"wrap": tr["wrap"], "blank": tr["blank"], "crlf": tr["crlf"], "final_newline": tr["final_newline"]}
+        return c, 1.0
     if k == "annotation":
         # the newick rooting comment: [&R] anywhere, [&U] on trees the model treats as unrooted
         c = copy.deepcopy(c)
@@ -344,7 +348,7 @@ def pair_case(draw, force=None, families=("nucleotide", "nucleotide", "general",
         # a dated newick with its own (not clock-like) branch lengths and keep_branch_lengths
         A["tree"]["keep"] = [draw(logu(0.3, 3.0)) for _ in range(2 * n - 2)]
     ncol = len(A["cols"])
-    kinds = ["taxa_perm", "seq_perm", "swap", "col_perm", "indices", "dup", "states", "trifurcate", "reroot", "reroot", "annotation"]
+    kinds = ["taxa_perm", "seq_perm", "swap", "col_perm", "indices", "dup", "states", "trifurcate", "reroot", "reroot", "annotation", "fasta"]
     kinds = [k for k in kinds if applicable(A, k)]
     chosen = [force] if force else []
     chosen += draw(st.lists(st.sampled_from(kinds), min_size=0 if force else 1, max_size=2))
@@ -365,6 +369,9 @@ def pair_case(draw, force=None, families=("nucleotide", "nucleotide", "general",
             ncol = ncol * trs[-1]["times"]
         elif k == "reroot":
             trs.append({"kind": k, "edge": draw(st.integers(0, 2 * n - 4)), "frac": draw(fl(0.01, 0.99))})
+        elif k == "fasta":
+            trs.append({"kind": k, "wrap": draw(st.sampled_from([0, 0, 1, 2, 3, 5, 7])), "blank": draw(st.booleans()), "crlf": draw(st.booleans()),
+                        "final_newline": draw(st.booleans())})
         elif k == "annotation":
             trs.append({"kind": k, "prefix": draw(st.sampled_from(["[&U] ", "[&U]", "[&R] ", "[&U] "]))})
         else:
@@ -427,6 +434,16 @@ def sum_body(c):
         parts += float(value(d).reshape(-1)[0])
     if abs(total - parts) > 1e-9 * max(1.0, abs(parts)):
         return res.fail("mismatch", {"total": total, "sum_of_columns": parts})
+    # the same decomposition through column selections of the one stored alignment (SitePattern `indices`): a split
+    # into two complementary selections written in mixed notations
+    if c["family"] != "codon" and len(c["cols"]) >= 2 and not c.get("indices"):
+        ncol = len(c["cols"])
+        cut = 1 + (len(str(c["cols"])) % (ncol - 1))
+        first = ",".join(str(j) if j % 2 else "%d:%d" % (j, j + 1) for j in range(cut))
+        second = "%d:" % cut if ncol % 2 else ",".join(str(j - ncol) for j in range(cut, ncol))
+        sel = sum(float(value(dict(copy.deepcopy(c), indices=ix)).reshape(-1)[0]) for ix in (first, second))
+        if abs(total - sel) > 1e-9 * max(1.0, abs(total)):
+            return res.fail("mismatch", {"total": total, "sum_of_selections": sel, "indices": [first, second]}, route="indices")
     return res
 
 
